@@ -50,6 +50,8 @@ def verdict_cells(P, b):
 
 def run(chk, ctx):
     P = Prog(ctx["facts"])
+    from .iter_rules import plumbing_rule
+    plumbing_rule(chk, P, {"TestCase": ("signals", "expected_indices"), "DataRowIteratorTestData": ("signals", "expected_indices")})   # what the parser / the binding produced is what runs
     from . import eqrules
     eqrules.require(chk, P, ["Signal"], "`output.signal == signal` identifies the signal (name, width and direction all equal)")
     eqrules.require(chk, P, ["value::ExpectedValue"], "`expected != ExpectedValue::X` means the entry is checked")
